@@ -185,6 +185,7 @@ import DtsVerif.Model.Guards
 import DtsVerif.Model.Shift
 import DtsVerif.Props.ObsSpec
 import DtsVerif.Model.Design
+import DtsVerif.Model.Scatter
 import Mathlib.Tactic.Ring
 import Mathlib.Tactic.FieldSimp
 /-! GENERATED by harness/translate.py from the current dts_accessor.py — do not edit. -/
@@ -1311,6 +1312,118 @@ def translate_design(src_root, which=("single", "double")):
     return "\n".join(L) + "\n", info
 
 
+# ================================================================================================ scatter of the reduced covariance
+def _sc_scalar(n, where, sizes):
+    k = ast.unparse(n).replace("'", '"')
+    if k in sizes:
+        return sizes[k]
+    if isinstance(n, ast.Constant) and isinstance(n.value, int) and n.value >= 0:
+        return str(n.value)
+    if isinstance(n, ast.BinOp) and isinstance(n.op, (ast.Mult, ast.Add)):
+        if isinstance(n.op, ast.Add):
+            return f"{_sc_scalar(n.left, where, sizes)} + {_sc_scalar(n.right, where, sizes)}"
+
+        def factor(m, right):
+            t = _sc_scalar(m, where, sizes)
+            return f"({t})" if isinstance(m, ast.BinOp) and (isinstance(m.op, ast.Add) or right) else t
+        return f"{factor(n.left, False)} * {factor(n.right, True)}"
+    raise Untranslatable(f"{where}: size expression outside the fragment: {k[:70]}")
+
+
+def _sc_from_i(n, where, sizes, ixe_names):
+    """`np.concatenate((np.arange(..), <scalar> + <index array>, np.arange(.., ..)))` as a Lean list expression; returns
+    (text, uses_ixE)"""
+    if not (isinstance(n, ast.Call) and ast.unparse(n.func) == "np.concatenate" and len(n.args) == 1 and isinstance(n.args[0], ast.Tuple)):
+        raise Untranslatable(f"{where}: from_i is `{ast.unparse(n)[:70]}`")
+    parts, uses = [], False
+    for e in n.args[0].elts:
+        if isinstance(e, ast.Call) and ast.unparse(e.func) == "np.arange" and not e.keywords and len(e.args) in (1, 2):
+            a = "0" if len(e.args) == 1 else f"({_sc_scalar(e.args[0], where, sizes)})"
+            b = f"({_sc_scalar(e.args[-1], where, sizes)})"
+            parts.append(f"arange {a} {b}")
+        elif isinstance(e, ast.BinOp) and isinstance(e.op, ast.Add) and ast.unparse(e.right).replace("'", '"') in ixe_names:
+            parts.append(f"ixE.map (fun i => {_sc_scalar(e.left, where, sizes)} + i)")
+            uses = True
+        else:
+            raise Untranslatable(f"{where}: element of from_i outside the fragment: {ast.unparse(e)[:70]}")
+    return " ++ ".join(parts), uses
+
+
+def translate_scatter(src_root):
+    """`from_i` of `calibrate_double_ended_solver` and of the three fixed-parameter branches of `calibrate_double_ended_helper`,
+    proved to be `Model/Scatter.lean` (for which `Props/Scatter.lean` proves where every unknown lands, for every size)"""
+    tree = ast.parse((Path(src_root) / "dtscalibration" / "calibrate_utils.py").read_text())
+    fns = {n.name: n for n in ast.walk(tree) if isinstance(n, ast.FunctionDef)}
+    L = ["\nnamespace DtsVerif.GenScatter\nopen DtsVerif.Py DtsVerif.Scatter\n"]
+    ixe = ("ix_sec[1:]", "ix_from_cal_match_to_glob", 'split["ix_from_cal_match_to_glob"]')
+    count = [0]
+
+    def concat_assigns(body):
+        out = []
+        for st in body:
+            for n in ast.walk(st):
+                if isinstance(n, ast.Assign) and ast.unparse(n.targets[0]) == "from_i" and isinstance(n.value, ast.Call) \
+                        and ast.unparse(n.value.func) == "np.concatenate":
+                    out.append(n.value)
+        return out
+
+    def emit(tag, values, where, sizes, model, with_ixe):
+        if not values:
+            raise Untranslatable(f"{where}: no `from_i = np.concatenate(...)` found")
+        for v in values:
+            text, uses = _sc_from_i(v, where, sizes, ixe)
+            if uses != with_ixe:
+                raise Untranslatable(f"{where}: from_i {'lacks' if with_ixe else 'has'} the attenuation positions")
+            count[0] += 1
+            name = f"{tag}{count[0]}"
+            args = "(nt N nta : Nat)" + (" (ixE : List Nat)" if with_ixe else "")
+            call = "nt N nta" + (" ixE" if with_ixe else "")
+            L.append(f"def {name} {args} : List Nat := {text}")
+            L.append(f"theorem {name}_eq {args} : {name} {call} = {model} {call} := rfl")
+
+    s = "calibrate_double_ended_solver"
+    h = "calibrate_double_ended_helper"
+    for need in (s, h):
+        if need not in fns:
+            raise Untranslatable(f"{need} not found")
+    ssrc = ast.unparse(fns[s]).replace("'", '"')
+    for piece in ("nt = ds.time.size", "po_cov = np.diag(po_var).copy()", 'iox_sec1, iox_sec2 = np.meshgrid(from_i, from_i, indexing="ij")',
+                  "po_cov[iox_sec1, iox_sec2] = p_cov", "return (po_sol, po_var, po_cov)"):
+        if piece not in ssrc:
+            raise Untranslatable(f"{s}: `{piece}` is gone")
+    # the last `if calc_cov:` block of the solver holds the scatter
+    blocks = [n for n in ast.walk(fns[s]) if isinstance(n, ast.If) and ast.unparse(n.test) == "calc_cov"
+              and "po_cov" in ast.unparse(n)]
+    if len(blocks) != 1:
+        raise Untranslatable(f"{s}: {len(blocks)} `if calc_cov:` blocks assemble po_cov")
+    emit("solverG", concat_assigns(blocks[0].body), s, {"nt": "nt", "nta": "nta", "ds.x.size": "N"}, "fromISolver", True)
+    hsrc = ast.unparse(fns[h]).replace("'", '"')
+    for piece in ("nt = self.dts.nt", "nx = self.dts.nx"):
+        if piece not in hsrc:
+            raise Untranslatable(f"{h}: `{piece}` is gone")
+    chain = [n for n in fns[h].body if isinstance(n, ast.If) and ast.unparse(n.test) == "fix_alpha and fix_gamma"]
+    if len(chain) != 1:
+        raise Untranslatable(f"{h}: the `if fix_alpha and fix_gamma / elif fix_gamma / elif fix_alpha` chain not found")
+    both = chain[0]
+    if not (len(both.orelse) == 1 and isinstance(both.orelse[0], ast.If) and ast.unparse(both.orelse[0].test) == "fix_gamma"):
+        raise Untranslatable(f"{h}: `elif fix_gamma` not found")
+    fg = both.orelse[0]
+    if not (len(fg.orelse) == 1 and isinstance(fg.orelse[0], ast.If) and ast.unparse(fg.orelse[0].test) == "fix_alpha"):
+        raise Untranslatable(f"{h}: `elif fix_alpha` not found")
+    fa = fg.orelse[0]
+    sizes = {"nt": "nt", "nta": "nta", "nx": "N"}
+    for tag, node, model, with_ixe in (("bothG", both, "fromIFixBoth", False), ("gammaG", fg, "fromIFixGamma", True),
+                                       ("alphaG", fa, "fromIFixAlpha", False)):
+        text = ast.unparse(ast.Module(body=node.body, type_ignores=[])).replace("'", '"')
+        for piece in ("p_cov = np.diag(p_var).copy()", 'iox_sec1, iox_sec2 = np.meshgrid(from_i, from_i, indexing="ij")',
+                      "p_cov[iox_sec1, iox_sec2] = out[2]"):
+            if piece not in text:
+                raise Untranslatable(f"{h} ({tag}): `{piece}` is gone")
+        emit(tag, concat_assigns(node.body), f"{h} ({ast.unparse(node.test)})", sizes, model, with_ixe)
+    L.append("\nend DtsVerif.GenScatter")
+    return "\n".join(L) + "\n", count[0]
+
+
 # ================================================================================================ observations and weights
 def _strip(n):
     """drop `.values`, `.ravel()`, `.T` wrappers; returns (inner node, list of wrappers outermost first)"""
@@ -1587,7 +1700,7 @@ def translate_reduce(src_root):
 # which generated sections tie which property's model to the source (a broken section is reported only for these)
 SECTIONS = {
     "C01": dict(formulas=(), extra=("obs-single", "design-single")),
-    "C02": dict(formulas=(), extra=("obs-double", "design-double")),
+    "C02": dict(formulas=(), extra=("obs-double", "design-double", "scatter")),
     "C03": dict(formulas=(), extra=("design-single", "design-double")),
     "C04": dict(formulas=("temps",), extra=("layout",)),
     "C05": dict(formulas=("temps", "derivs", "terms"), extra=()),
@@ -1617,6 +1730,10 @@ def translate_for(prop, src_root):
             text += translate_shift(src_root)
         elif e == "reduce":
             text += translate_reduce(src_root)
+        elif e == "scatter":
+            t_, n_ = translate_scatter(src_root)
+            text += t_
+            names = dict(names, scatter_vectors=n_)
         elif e in ("design-single", "design-double"):
             t_, info = translate_design(src_root, which=(e.split("-")[1],))
             text += t_
